@@ -83,9 +83,9 @@ def coq_str(s):
 
 
 # --------------------------------------------------------------------------- gate
-def cone(prop):
-    """files of the development that Properties/<prop>.v depends on (transitively), by its Require lines"""
-    todo, seen = [os.path.join("Properties", prop + ".v")], []
+def cone(prop, extra=()):
+    """files of the development that Properties/<prop>.v (and the extra property files) depend on (transitively), by their Require lines"""
+    todo, seen = [os.path.join("Properties", n + ".v") for n in [prop] + list(extra)], []
     while todo:
         rel = todo.pop()
         if rel in seen or not os.path.exists(os.path.join(COQ, rel)):
@@ -101,14 +101,14 @@ def cone(prop):
     return seen
 
 
-def grep_gate(prop=None):
+def grep_gate(prop=None, extra=()):
     """no declared axioms, no admitted proofs, no disabled checks in the development the property depends on
     (the whole development when prop is None)"""
     bad = []
     if prop is None:
         paths = sorted(glob.glob(os.path.join(COQ, "**", "*.v"), recursive=True))
     else:
-        paths = [os.path.join(COQ, r) for r in cone(prop)]
+        paths = [os.path.join(COQ, r) for r in cone(prop, extra)]
     for path in paths:
         depth = 0
         with open(path) as f:
@@ -202,13 +202,16 @@ def make(targets, timeout=1500, fresh=()):
             return False, out + "\nTIMEOUT"
 
 
-def check_properties(prop, allowed_axioms):
-    """build Properties/<prop>.vo from scratch-of-that-file; parse theorems + Print Assumptions"""
-    src = os.path.join(COQ, "Properties", prop + ".v")
+def _check_property_file(name, allowed_axioms):
+    """build Properties/<name>.vo from scratch-of-that-file; parse theorems + Print Assumptions"""
+    src = os.path.join(COQ, "Properties", name + ".v")
+    if not os.path.exists(src):
+        return {"theorems": [], "ok": False, "log": "", "axioms": {}, "bad_axioms": {}, "failed_at": None,
+                "error": f"Properties/{name}.v does not exist", "discharged": 0}
     text = open(src).read()
     theorems = re.findall(r"^\s*Theorem\s+(\w+)", text, flags=re.M)
     printed = re.findall(r"^\s*Print Assumptions\s+(\w+)\s*\.", text, flags=re.M)
-    ok, out = make([f"Properties/{prop}.vo"], fresh=[f"Properties/{prop}.vo"])
+    ok, out = make([f"Properties/{name}.vo"], fresh=[f"Properties/{name}.vo"])
     res = {"theorems": theorems, "ok": ok, "log": out, "axioms": {}, "bad_axioms": {}, "failed_at": None}
     if not ok:
         m = re.search(r'File "\./([^"]+)", line (\d+)', out)
@@ -220,16 +223,16 @@ def check_properties(prop, allowed_axioms):
         return res
     # split the output of the Properties file into Print Assumptions blocks
     blocks = re.split(r"(?=^Closed under the global context|^Axioms:)", out, flags=re.M)[1:]
-    for name, blk in zip(printed, blocks):
+    for name_, blk in zip(printed, blocks):
         if blk.startswith("Closed"):
-            res["axioms"][name] = []
+            res["axioms"][name_] = []
         else:
             axs = re.findall(r"^([A-Za-z_][\w.']*)\s*:", blk, flags=re.M)
             axs = [a for a in axs if a not in ("Axioms",)]
-            res["axioms"][name] = axs
+            res["axioms"][name_] = axs
             extra = [a for a in axs if a not in allowed_axioms]
             if extra:
-                res["bad_axioms"][name] = extra
+                res["bad_axioms"][name_] = extra
     if len(blocks) != len(printed) or set(printed) != set(theorems):
         res["ok"] = False
         res["error"] = f"Print Assumptions bookkeeping: {len(blocks)} blocks for {len(printed)} requests / {len(theorems)} theorems"
@@ -237,6 +240,27 @@ def check_properties(prop, allowed_axioms):
         res["ok"] = False
         res["error"] = "axioms outside the declared trusted base: " + json.dumps(res["bad_axioms"])
     res["discharged"] = len(theorems) if res["ok"] else 0
+    return res
+
+
+def check_properties(prop, allowed_axioms, extra_files=()):
+    """Properties/<prop>.v plus the shared source-tie theorem files the property module names in EXTRA_PROPERTY_FILES (each of the
+    same Theorem / exact / Print Assumptions form); every file is built from scratch-of-that-file, one after the other, so that the
+    Print Assumptions blocks can be attributed; the results are merged (all files must check)."""
+    res = _check_property_file(prop, allowed_axioms)
+    res["files"] = {prop: {"obligations": len(res["theorems"]), "discharged": res["discharged"]}}
+    for name in extra_files:
+        r = _check_property_file(name, allowed_axioms)
+        res["files"][name] = {"obligations": len(r["theorems"]), "discharged": r["discharged"]}
+        res["theorems"] = res["theorems"] + r["theorems"]
+        res["axioms"].update(r["axioms"])
+        res["bad_axioms"].update(r["bad_axioms"])
+        res["log"] += "\n" + r["log"]
+        res["discharged"] += r["discharged"]
+        if not r["ok"]:
+            if res["ok"]:
+                res["failed_at"], res["error"] = r.get("failed_at"), f"[Properties/{name}.v] " + str(r.get("error"))
+            res["ok"] = False
     return res
 
 
